@@ -594,7 +594,8 @@ def check_dataset(case, root, pq, ctx=None, verbose=False):
                             problems.append("row %d column %s: time zone read back %s, written %s" % (rid, c, gtz, df[c].dtype.tz))
                             cls_extra["mismatch"] = "value"
                     if g != want:
-                        k = "cat-label-kind" if is_cat[c] and g[0] == "s" and want[0] != "s" else "value"
+                        # the known finding is exactly: the label comes back as its own text (any other text is a wrong value)
+                        k = "cat-label-kind" if is_cat[c] and want[0] != "s" and g == ["s", texts[rid][j]] else "value"
                         problems.append("row %d column %s: read %r, written %r" % (rid, c, g, want))
                         if cls_extra.get("mismatch") != "value":
                             cls_extra["mismatch"] = k
